@@ -141,4 +141,4 @@ def run_ack_con(run, P):
             n += 1
             run.instance('R-REPLY-ONCE', '%s: makes an ACK (%s)' % (name, sev['e'].get('fn')))
         solve(f, Env({}), on_event, None, keys, R, key_fn=lambda e: e.ts.get('tf'), on_branch=on_branch)
-    run.require(n >= 3 or run.fixture_mode, 'R-REPLY-ONCE(ack): fewer than 3 places that make an ACK found')
+    run.require(n >= (3 if run.cfg == 'base' else 1) or run.fixture_mode, 'R-REPLY-ONCE(ack): fewer than 3 (base) / 1 (reduced configurations) places that make an ACK found')
